@@ -133,6 +133,7 @@ func runC02(c *Ctx, r *Report) {
 	r.Rule("C02.R4", "escape alphabets: every escape strconv.Quote can emit is decoded by the lexer's readString to the byte(s) it denotes: \\a \\b \\f \\n \\r \\t \\v to their control bytes, \\\\ and \\\" to themselves, \\x to one raw byte, \\u and \\U to a rune")
 	r.Rule("C02.R6", "a value-less return ends its block: every path of parseReturnStatement that returns without storing ReturnValue shifts no token and is selected by a test that the next token is a block closer (}, end of input, end of line) or a token with no prefix parse function (the next statement then fails to parse); otherwise `return` <newline> `x` re-parses as `return x`")
 	r.Rule("C02.R7", "the enclosing precedence is scoped: a printer that stores to PrintState.ExpressionPrecedence (directly or through needParen, which returns the previous value) stores the value it found back on every path to a return")
+	r.Rule("C02.R8", "no print after an in-place rewrite: a tree passed to a function that stores into the nodes it is given (State.DefineMacros removes definitions from the program) is not pretty-printed afterwards in the same function")
 	r.Rule("C02.R5", "statement separation: between two consecutive statements of a block a separator is emitted on every path in long form (space or newline) and in compact form; the 'previous statement' used for that decision is the previous sibling (it is recorded after the statement's own children are printed)")
 
 	astPkg := c.P("ast")
@@ -421,6 +422,128 @@ func runC02(c *Ctx, r *Report) {
 
 	// ---- R7 ----
 	c.checkPrecedenceScoping(r)
+
+	// ---- R8 ----
+	c.checkPrintAfterRewrite(r)
+}
+
+// checkPrintAfterRewrite: a tree that was handed to a function that rewrites it in place (DefineMacros
+// removes the macro definitions from the program it is given) no longer is the program that was parsed;
+// printing it afterwards does not give text that parses back to that program.
+func (c *Ctx) checkPrintAfterRewrite(r *Report) {
+	nodeIface := c.TypeNamed("ast", "Node")
+	isAstPtr := func(t types.Type) bool {
+		if types.Identical(t, nodeIface) {
+			return true
+		}
+		if p, ok := t.(*types.Pointer); ok {
+			if n, ok := p.Elem().(*types.Named); ok && n.Obj().Pkg() != nil && shortPkg(n.Obj().Pkg()) == "ast" {
+				return true
+			}
+		}
+		return false
+	}
+	// values that are the same tree: through assertions, interface boxing and phis
+	var root func(v ssa.Value, depth int) ssa.Value
+	root = func(v ssa.Value, depth int) ssa.Value {
+		for i := 0; i < 8; i++ {
+			switch x := v.(type) {
+			case *ssa.MakeInterface:
+				v = x.X
+			case *ssa.ChangeInterface:
+				v = x.X
+			case *ssa.TypeAssert:
+				v = x.X
+			case *ssa.Extract:
+				if ta, ok := x.Tuple.(*ssa.TypeAssert); ok {
+					v = ta.X
+				} else {
+					return v
+				}
+			default:
+				return v
+			}
+		}
+		return v
+	}
+	// in-place rewriters: functions storing into a field of a node reached from a parameter
+	mutators := map[*ssa.Function]int{}
+	for _, fn := range c.ModuleSSAFuncs() {
+		if fn.Pkg != nil && (shortPkg(fn.Pkg.Pkg) == "parser" || shortPkg(fn.Pkg.Pkg) == "ast") {
+			continue // builders of new nodes / the copying rewriter (C13.R1)
+		}
+		for i, p := range fn.Params {
+			if !isAstPtr(p.Type()) {
+				continue
+			}
+			eachInstr(fn, func(in ssa.Instruction) {
+				st, ok := in.(*ssa.Store)
+				if !ok {
+					return
+				}
+				fa, ok := st.Addr.(*ssa.FieldAddr)
+				if !ok {
+					return
+				}
+				if root(fa.X, 0) == ssa.Value(p) {
+					mutators[fn] = i
+				}
+			})
+		}
+	}
+	if len(mutators) == 0 {
+		r.Undecided("C02.R8: no in-place tree rewriter found (State.DefineMacros expected)")
+		return
+	}
+	n := 0
+	for _, fn := range c.ModuleSSAFuncs() {
+		var muts []*ssa.Call
+		eachInstr(fn, func(in ssa.Instruction) {
+			if call, ok := in.(*ssa.Call); ok {
+				if sc := call.Common().StaticCallee(); sc != nil {
+					if _, isM := mutators[sc]; isM {
+						muts = append(muts, call)
+					}
+				}
+			}
+		})
+		for _, m := range muts {
+			n++
+			sc := m.Common().StaticCallee()
+			tree := root(m.Common().Args[mutators[sc]], 0)
+			var bad ssa.Instruction
+			eachInstr(fn, func(in ssa.Instruction) {
+				call, ok := in.(ssa.CallInstruction)
+				if !ok || bad != nil {
+					return
+				}
+				cc := call.Common()
+				name := ""
+				var recv ssa.Value
+				if cc.IsInvoke() {
+					name, recv = cc.Method.Name(), cc.Value
+				} else if obj := calleeObj(call); obj != nil && len(cc.Args) > 0 {
+					name, recv = obj.Name(), cc.Args[0]
+				}
+				if name != "PrettyPrint" || recv == nil {
+					return
+				}
+				if root(recv, 0) == tree && reachesInstr(m, in) {
+					bad = in
+				}
+			})
+			desc := "the tree given to " + sc.Name() + " is not printed afterwards"
+			if bad != nil {
+				r.Fail("C02.R8", ssaFuncName(fn), desc, c.Pos(instrPos(bad)), sc.Name()+" rewrites the tree it is given in place (it removes statements); the same tree is printed after that call: the printed text is not the program that was parsed (macro definitions are missing from the text kept for the history)")
+			} else {
+				r.Ok("C02.R8", ssaFuncName(fn), desc, c.Pos(m.Pos()))
+			}
+		}
+	}
+	if n == 0 {
+		r.Undecided("C02.R8: no call to an in-place tree rewriter found")
+	}
+	r.Floor("C02.R8", 2)
 }
 
 // checkPrecedenceScoping: PrintState.ExpressionPrecedence is the precedence of the *enclosing* operator.
